@@ -272,9 +272,12 @@ def run_case(case):
     else:
         target = S.make_plain(sig, body)
         prefix = ()
+        plain = target
+        preset = {}
         if kind == 'partial':
             import functools
-            target = functools.partial(target, **dict((n, V.build(v)) for n, v in case.get('pkw', [])))
+            preset = dict((n, V.build(v)) for n, v in case.get('pkw', []))
+            target = functools.partial(target, **preset)
     spec = case['ignore']
     sel = selector(sig, 'function' if kind == 'partial' else kind, spec)
     classes = ['path:' + case['path'], 'kind:' + kind, 'style:' + spec['style'], 'keymap:%s%s' % (case['keymap']['cls'], '' if case['keymap']['flat'] else '-nonflat')]
@@ -286,7 +289,11 @@ def run_case(case):
         return [], None, classes
     a1, k1 = S.spell_full(sig, b1, case['form1'])
     a2, k2 = S.spell_full(sig, b2, case['form2'])
-    x, y = S.bound(target, prefix + a1, k1), S.bound(target, prefix + a2, k2)
+    if kind == 'partial':
+        # what the underlying function is really called with: the partial's presets, overridden by the caller's keywords
+        x, y = S.bound(plain, a1, dict(preset, **k1)), S.bound(plain, a2, dict(preset, **k2))
+    else:
+        x, y = S.bound(target, prefix + a1, k1), S.bound(target, prefix + a2, k2)
     if x is None or y is None:
         return [Discrepancy('C11/harness/invalid-call', '%r %r / %r %r' % (a1, k1, a2, k2))], None, classes
     only, diff = differs_only_in_ignored(sel, x, y)
